@@ -10,6 +10,7 @@
 The driver renders, schedules, measures time and attributes lines to steps; every judgement is TLC's."""
 import json
 import multiprocessing
+from . import core as _core
 import os
 import re
 import shutil
@@ -407,8 +408,7 @@ def hook_replay(ctx, behaviours, svcs, timeout_on=True, nproc=6, tag="h", tails=
                      os.path.join(ctx.scratch, "%s-trace%d.ndjson" % (tag, n)), opts))
     if nproc == 1:
         return [_hook_worker(jobs[0])]
-    with multiprocessing.Pool(nproc) as pool:
-        return pool.map(_hook_worker, jobs)
+    return _core.pool_map(_hook_worker, jobs, nproc)
 
 
 # ---- real timers: a history is a list of events and {"e": "Tick", "fire": [ids]} items --------------------
